@@ -255,6 +255,13 @@ impl StorCtx {
                 let r = self.m.tombstone_value_states(&AkdLabel(u.as_bytes().to_vec()), st["epoch"].as_u64().unwrap()).await;
                 tr.emit(json!({"ev": "tombstone", "user": u, "epoch": st["epoch"], "res": if r.is_ok() {"ok"} else {"err"}}));
             }
+            "ext_set" => {
+                // another instance writes to the same database (bypassing this manager and its cache)
+                use akd::storage::Database;
+                let recs: Vec<DbRecord> = st["recs"].as_array().unwrap().iter().map(rec_to_real).collect();
+                let _ = self.db.inner.batch_set(recs, akd::storage::DbSetState::General).await;
+                tr.emit(json!({"ev": "ext_set", "recs": st["recs"]}));
+            }
             "reject_next" => {
                 self.db.ctl.lock().unwrap().reject_next_write = true;
                 tr.emit(json!({"ev": "reject_next"}));
